@@ -27,12 +27,22 @@ pub enum Status {
     Active,
     Inactive,
     Banned(i64),
+    Suspended { until: i64, reason: String },
+}
+
+impl Default for Status {
+    fn default() -> Self {
+        Status::Active
+    }
 }
 
 #[derive(Debug, Clone, PartialEq, Default, DbTypeMarker, DbSerialize, DbValue)]
 pub struct Prop {
     pub name: String,
     pub value: i64,
+    /// an enum (possibly in a struct-like variant) followed by more data inside a nested custom value
+    pub state: Status,
+    pub tail: Vec<String>,
 }
 
 #[derive(Debug, Clone, PartialEq, DbType)]
@@ -104,10 +114,24 @@ fn f64v(rng: &mut Rng) -> f64 {
     }
 }
 
+fn status(rng: &mut Rng) -> Status {
+    match rng.below(4) {
+        0 => Status::Active,
+        1 => Status::Inactive,
+        2 => Status::Banned(rng.next_u64() as i64),
+        _ => Status::Suspended {
+            until: rng.next_u64() as i64,
+            reason: string(rng),
+        },
+    }
+}
+
 fn prop(rng: &mut Rng) -> Prop {
     Prop {
         name: string(rng),
         value: rng.next_u64() as i64,
+        state: status(rng),
+        tail: (0..rng.usize(3)).map(|_| string(rng)).collect(),
     }
 }
 
@@ -144,11 +168,7 @@ fn rich(rng: &mut Rng) -> Rich {
         o1: if rng.chance(1, 2) { Some(string(rng)) } else { None },
         o2: if rng.chance(1, 2) { Some(rng.next_u64() as i64) } else { None },
         o3: if rng.chance(1, 2) { Some((0..rng.usize(4)).map(|_| string(rng)).collect()) } else { None },
-        st: match rng.below(3) {
-            0 => Status::Active,
-            1 => Status::Inactive,
-            _ => Status::Banned(rng.next_u64() as i64),
-        },
+        st: status(rng),
         p: prop(rng),
         ps: (0..rng.usize(4)).map(|_| prop(rng)).collect(),
         r: string(rng),
@@ -290,7 +310,7 @@ impl CaseEngine for C22 {
                     |mut v: Vectors| { v.vi.push(7); v.vs.clear(); v.vb.push(1); v }, kind);
                 roundtrip_type!(any, rep, fired, ctx, Rich, "Rich", (0..n).map(|_| rich(&mut rng)).collect(),
                     |mut v: Rich, id: i64| { v.db_id = Some(DbId(id)); v },
-                    |mut v: Rich| { v.o1 = Some("now set".into()); v.ps.push(Prop { name: "n".into(), value: 1 }); v.st = Status::Banned(3); v.sub.sub_id += 1; v }, kind);
+                    |mut v: Rich| { v.o1 = Some("now set".into()); v.ps.push(Prop { name: "n".into(), value: 1, state: Status::Suspended { until: 5, reason: "r".into() }, tail: vec!["t".into()] }); v.st = Status::Banned(3); v.sub.sub_id += 1; v }, kind);
             }
         });
         if let Err(p) = r {
